@@ -79,7 +79,10 @@ pub fn oom_mode<const V: u32>(d: &mut Driver<V>, p: &Params, heap_mb: usize, is_
         reset(4000 + round);
         // keep `live_frac`/8 of the heap alive: a linked chain of 4 KB objects hanging off root 0
         let live_eighths = [2usize, 4, 5][(round % 3) as usize];
-        let live_target = if is_nogc { 0 } else { heap / 8 * live_eighths };
+        // dynamic heap size: the first round starts on the empty, still minimal heap, so that
+        // requests between the current and the maximum heap size are issued
+        let fresh = round == 0 && arg("trigger").map_or(false, |t| t.starts_with("Dynamic"));
+        let live_target = if is_nogc || fresh { 0 } else { heap / 8 * live_eighths };
         let mut live = 0usize;
         let mut failed = 0;
         while live < live_target && failed < 3 {
@@ -119,7 +122,10 @@ pub fn oom_mode<const V: u32>(d: &mut Driver<V>, p: &Params, heap_mb: usize, is_
             usize::MAX & !4095,
         ];
         for &size in &sizes {
-            for bits in 0..8u32 {
+            // on the fresh dynamic heap the requests that must collect (and grow the heap) come
+            // before the overcommitted ones, which would grow it without a collection
+            let order: [u32; 8] = if fresh { [6, 2, 4, 0, 7, 3, 5, 1] } else { [0, 1, 2, 3, 4, 5, 6, 7] };
+            for bits in order {
                 let opts = AllocationOptions {
                     allow_overcommit: bits & 1 != 0,
                     at_safepoint: bits & 2 != 0,
